@@ -71,8 +71,31 @@ def _ls_call(obj, name, *args, **kw):
     yield  # pragma: no cover  (makes this a generator)
 
 
+def _ls_attr(obj, name):
+    """`self.<name>` read inside a stepped function: when it is a property with source, its getter is stepped as well (its
+    lines and its lock are scheduling points), else a plain attribute read."""
+    prop = None
+    for klass in type(obj).__mro__:
+        if name in klass.__dict__:
+            prop = klass.__dict__[name]
+            break
+    if isinstance(prop, property) and inspect.isfunction(prop.fget) and name not in getattr(obj, "__dict__", {}):
+        key = prop.fget.__code__
+        if key not in _STEPPERS:
+            try:
+                _STEPPERS[key] = stepper(prop.fget, klass.__name__ if "__" in inspect.getsource(prop.fget) else None, True)
+            except Exception:  # noqa
+                _STEPPERS[key] = None
+        st = _STEPPERS[key]
+        if st is not None:
+            return (yield from st(obj))
+    return getattr(obj, name)
+    yield  # pragma: no cover  (makes this a generator)
+
+
 class _CallInliner(ast.NodeTransformer):
-    """self.m(...) -> (yield from _ls_call(self, 'm', ...)); does not enter nested scopes"""
+    """self.m(...) -> (yield from _ls_call(self, 'm', ...)); self.x (read) -> (yield from _ls_attr(self, 'x')); does not enter
+    nested scopes"""
 
     def visit_Lambda(self, node):
         return node
@@ -81,13 +104,24 @@ class _CallInliner(ast.NodeTransformer):
     visit_FunctionDef = visit_AsyncFunctionDef = visit_ClassDef = visit_Lambda
 
     def visit_Call(self, node):
-        self.generic_visit(node)
         f = node.func
         if isinstance(f, ast.Attribute) and isinstance(f.value, ast.Name) and f.value.id == "self" \
                 and not any(isinstance(a, ast.Starred) for a in node.args) and all(k.arg for k in node.keywords):
+            node.args = [self.visit(a) for a in node.args]
+            for k in node.keywords:
+                k.value = self.visit(k.value)
             new = ast.YieldFrom(ast.Call(ast.Name("_ls_call", ast.Load()),
                                          [ast.Name("self", ast.Load()), ast.Constant(f.attr)] + node.args, node.keywords))
             return ast.copy_location(new, node)
+        self.generic_visit(node)
+        return node
+
+    def visit_Attribute(self, node):
+        if isinstance(node.ctx, ast.Load) and isinstance(node.value, ast.Name) and node.value.id == "self" \
+                and not node.attr.startswith("__"):
+            new = ast.YieldFrom(ast.Call(ast.Name("_ls_attr", ast.Load()), [ast.Name("self", ast.Load()), ast.Constant(node.attr)], []))
+            return ast.copy_location(new, node)
+        self.generic_visit(node)
         return node
 
 
@@ -196,6 +230,7 @@ def stepper(func, cls_name: str | None = None, inline_calls: bool = False, split
     ast.fix_missing_locations(tree)
     ns: dict = {}
     f.__globals__.setdefault("_ls_call", _ls_call)
+    f.__globals__.setdefault("_ls_attr", _ls_attr)
     exec(compile(tree, f"<stepper {f.__qualname__}>", "exec"), f.__globals__, ns)
     return ns[cls_name].__dict__[fn.name] if cls_name else ns[fn.name]
 
